@@ -94,11 +94,15 @@ func ruleC11_45(c *Ctx) {
 					li, ok := implicit[0].Loops[0].Frame.Loop(implicit[0].Loops[0].Header)
 					okG := false
 					if ok {
-						want := sym.Not(sym.Bin(tokEQL, li.IndexVal, sym.Int(0), nil))
-						okG = impliesLit([]*sym.Term{implicit[0].Guard}, want)
+						// "not the first repetition": the counter differs from the value it has on the first iteration
+						// (0 when counting up from 0, the repeat count when counting down)
+						if i0, isC := li.Init.Int64(); isC {
+							want := sym.Not(sym.Bin(tokEQL, li.IndexVal, sym.Int(i0+li.Offset), nil))
+							okG = impliesLit([]*sym.Term{implicit[0].Guard}, want)
+						}
 					}
 					if !okG {
-						diffs4 = append(diffs4, "the implicit head line is not guarded by 'repetition != 0'")
+						diffs4 = append(diffs4, "the implicit head line is not guarded by 'not the first repetition'")
 					}
 				}
 			} else if len(implicit) != 0 {
